@@ -334,11 +334,12 @@ func (x *Exec) evalClause(ce *CEnv, cl *Clause, fname string) (t *Term) {
 
 // havocModifies replaces every location named in the modifies clause by an unknown value.
 // Forms:   x.f            one field of one object (all families of that field's type)
-//          x.f[*]         all entries of a map or all elements of a slice held in x.f
-//          x.f[k]         one map entry / slice element
-//          forall(i, lo, hi, loc)   with literal bounds
-//          family("T.f")  a whole family (every object)
-//          log            the ghost call log
+//
+//	x.f[*]         all entries of a map or all elements of a slice held in x.f
+//	x.f[k]         one map entry / slice element
+//	forall(i, lo, hi, loc)   with literal bounds
+//	family("T.f")  a whole family (every object)
+//	log            the ghost call log
 func (x *Exec) havocModifies(st *State, ce *CEnv, c *Contract, fname string) {
 	defer func() {
 		if r := recover(); r != nil {
@@ -731,7 +732,7 @@ func (x *Exec) appendSymbolic(st *State, s, add Val, ref *Term, et types.Type, f
 		n.other = fam
 		n.ref = ref
 		n.srcRef = s.Arr
-		n.cond = Add(s.Off, s.Len)               // split position
+		n.cond = Add(s.Off, s.Len)                // split position
 		n.delta = Sub(add.Off, Add(s.Off, s.Len)) // index shift for the tail
 		n.val = add.Arr                           // tail row
 		st.heap.Set(f.name, n)
